@@ -229,7 +229,8 @@ def gen_c09(r, tier):
                         'repair': r.chance(0.5),
                         'type_checking': r.pick([None, 'strict', 'sloppy']),
                         'epsilon': r.pick([None, 0.01]),
-                        'reuse_dict': r.chance(0.5)})
+                        'reuse_dict': r.chance(0.5),
+                        'via_pipe': r.chance(0.2)})
         if r.chance(0.5):
             ops.append({'op': 'noise', 'client': 'A', 'cs': name,
                         'frame': r.randrange(nframes),
@@ -1334,6 +1335,22 @@ def op_verdicts(ctx, op):
             held_text0 = dict_text(copy.deepcopy(held))
         except Exception:
             held_text0 = None
+    pipe_fds = []
+    if op.get('via_pipe') and rec.get('path') and os.path.exists(rec['path']):
+        # the constraints arrive through a pipe (shell process substitution
+        # gives /dev/fd/N): a readable path that is not a regular file
+        def from_pipe():
+            with io.open(rec['path'], 'rb') as f:
+                data = f.read()
+            if len(data) > 60000:
+                return rec['path']
+            rfd, wfd = os.pipe()
+            os.write(wfd, data)
+            os.close(wfd)
+            pipe_fds.append(rfd)
+            ctx.stats['probes']['constraints_read_from_a_pipe'] += 1
+            return '/dev/fd/%d' % rfd
+        srcs = tuple(srcs) + (('pipe', from_pipe),)
     for name, mk in srcs:
         try:
             v = verify_df(df.copy(deep=True), mk(), **kw)
@@ -1342,6 +1359,11 @@ def op_verdicts(ctx, op):
             raise
         except Exception as e:
             results.append((name, 'exc:' + exc_tag(e), None, None))
+    for fd in pipe_fds:
+        try:
+            os.close(fd)
+        except OSError:
+            pass
     ctx.events.append({'i': op['i'], 'op': 'verdicts',
                        'results': results})
     ctx.shape.append('W%s' % ''.join('x' if isinstance(r[1], str) else '.'
